@@ -245,6 +245,29 @@ func cmdWorker(args []string) {
 			continue
 		}
 		v := firstArmed(g.cfg, g.x.violations)
+		if v == nil && *prop == "C20" && g.x.finished && ((*thorough && run%3 == 0) || run%8 == 0) {
+			// the same trace once more, split over two fresh OS processes at a block boundary
+			if bs := blockBoundaries(g.ops); len(bs) > 4 {
+				cut := bs[len(bs)/3+(run/8)%(len(bs)/3)]
+				self, _ := os.Executable()
+				tr := &Trace{Config: g.cfg, Ops: g.ops, Finish: false, SplitCut: cut}
+				d, err := splitCheck(self, tr, cut)
+				sum.C["fault_process_restart_split"]++
+				if err != nil {
+					emit(&WorkerOut{Kind: "internal", Run: run, Err: "split execution: " + err.Error()})
+				} else if d != "" {
+					dir := filepath.Join(verifRoot, "replays")
+					os.MkdirAll(dir, 0755)
+					path := filepath.Join(dir, fmt.Sprintf("%s-%d-%d-split.json", *prop, *seed, run))
+					tr.Expect = &Violation{Property: "C20", Rule: "process_restart_divergence", Detail: d}
+					tr.Note = "C20 process-restart case: ops[0:split_cut] run in one fresh process, the rest in another on the dumped database"
+					if err := tr.Save(path); err == nil {
+						emit(&WorkerOut{Kind: "violation", Run: run, Viol: tr.Expect, Replay: path})
+						break
+					}
+				}
+			}
+		}
 		if v == nil {
 			continue
 		}
@@ -258,7 +281,11 @@ func cmdWorker(args []string) {
 		min := Minimise(tr, v, 90*time.Second)
 		if min.Expect == nil {
 			// the full trace must at least reproduce
-			full := safeExec(tr)
+			n := 1
+			if flakyByNature(v) {
+				n = 12
+			}
+			full := safeExecTries(tr, n)
 			if full == nil || firstArmed(g.cfg, full.Violations) == nil {
 				emit(&WorkerOut{Kind: "internal", Run: run, Err: "violation did not reproduce on re-execution of its own trace: " + v.Sig()})
 				continue
